@@ -1,4 +1,5 @@
 import Chiritori.Model.Api
+import Chiritori.Model.Cli
 import Chiritori.Spec.All
 /-
   Line-protocol driver for the model (see harness/src/main.rs for the protocol).
@@ -124,6 +125,25 @@ def handle (r : Req) : String :=
     let lm := buildLineMap b
     "ok\t" ++ " ".intercalate (lm.map toString) ++ "|" ++
       " ".intercalate (r.args.map fun n => toString (findLine lm n.toNat))
+  | "cli" =>
+    -- extra: config file content (hex) or "-", list, listAll, listJson
+    match r.raw with
+    | [cfgFile, l, la, lj] =>
+      let inPath := "in".toList
+      let cfgPath := "cfg".toList
+      let args : Cli.Args := {
+        filename := some inPath, delimiterStart := r.ds, delimiterEnd := r.de,
+        timeLimitedTagName := r.cfg.tlName, timeLimitedTimeOffset := r.cfg.offset,
+        timeLimitedCurrent := some (r.cfg.now, r.cfg.nowNanos), removalMarkerTagName := r.cfg.rmName,
+        removalMarkerTargetName := r.cfg.targets,
+        removalMarkerTargetConfig := if cfgFile == "-" then none else some cfgPath,
+        list := l == "1", listAll := la == "1", listJson := lj == "1" }
+      let world : Cli.World := {
+        files := fun p => if p = inPath then some r.src else if p = cfgPath ∧ cfgFile != "-" then some (unhex cfgFile) else none,
+        stdin := [], now := (0, 0) }
+      let o := Cli.run args world
+      s!"ok\t{o.exit}:{hex o.stdout}"
+    | _ => "ok\tbad-cli-request"
   | "spec" => Spec.dispatch r.raw r.src r.ds r.de r.cfg r.args
   | _ => "ok\tbad-op"
 
